@@ -476,6 +476,16 @@ func (w *world) doOp(op *Op) *reply {
 			c.state = "created"
 			c.resAtAlloc = w.reservedClass(c)
 			c.cfgAtAlloc = w.cfg
+			// an older live instance with the same namespace/pod/container name
+			// (its pod was re-created) is retired by the plugin right here; the
+			// runtime is about to stop it anyway
+			for _, o := range w.rt.ctrs {
+				if o != c && (o.state == "created" || o.state == "running") && o.spec.Name == c.spec.Name &&
+					o.pod.spec.Name == pod.spec.Name && o.pod.spec.Namespace == pod.spec.Namespace {
+					o.state, o.stopSeen = "stopped", true
+					w.res.Probe("older-instance-with-the-same-name-retired")
+				}
+			}
 		}
 	case "start":
 		c, ok := w.rt.ctrs[op.ID]
